@@ -197,8 +197,11 @@ type vfArgs struct {
 }
 
 func vfDefaultArgs(ctx context.Context, repo, repo2 string) vfArgs {
-	return vfArgs{ctx: ctx, repo: repo, repo2: repo2, dig: "sha256:arg", str: "strarg", o0: verifInt64("o0"), o1: verifInt64("o1"),
-		chunk: verifInt("chunk"), desc: ociregistry.Descriptor{MediaType: "m", Size: 3, Digest: "sha256:in"}, rd: vfIOReader{}, data: []byte{1, 2}, mediaType: "mt"}
+	// the non-repository string arguments (digest, tag / upload id / start point, media
+	// type) are symbolic (0 or 1 arbitrary byte, so the empty string is included): the
+	// wrappers must pass them through unchanged and must not look at them
+	return vfArgs{ctx: ctx, repo: repo, repo2: repo2, dig: ociregistry.Digest(verifString("argDigest", 1)), str: verifString("argStr", 1), o0: verifInt64("o0"), o1: verifInt64("o1"),
+		chunk: verifInt("chunk"), desc: ociregistry.Descriptor{MediaType: "m", Size: verifInt64("descSize"), Digest: ociregistry.Digest(verifString("descDigest", 1))}, rd: vfIOReader{}, data: []byte{1, 2}, mediaType: verifString("argMediaType", 1)}
 }
 
 func vfDrainS(seq ociregistry.Seq[string], res *vfResult) {
